@@ -2522,8 +2522,13 @@ class CompressedCertificate(Certificate):
 
         try:
             if self.compression_algo == CertificateCompressionAlgorithm.zlib:
-                decompressed_msg = zlib.decompress(
-                    compressed_msg, 15, expected_length)
+                # never inflate past the advertised size (RFC 8879, sec. 4)
+                decompressor = zlib.decompressobj(15)
+                decompressed_msg = decompressor.decompress(
+                    compressed_msg, expected_length + 1)
+                if decompressor.unconsumed_tail:
+                    raise ValueError("Compressed data exceeds the "
+                                     "advertised uncompressed length")
             elif self.compression_algo == \
                     CertificateCompressionAlgorithm.brotli:
                 if compression_algo_impls["brotli_accepts_limit"]:
